@@ -64,8 +64,8 @@ CLAIM = dict(
          'None / empty str / 0.0 do not): strict part of correspondence and search since the repair d12f1ba (`if cb(...)`); the '
          'model callback is the truthiness of the answer. Documented exclusions: an objective that modifies its batch in place '
          'WITH a cache is user misuse (cross raises KeyError, _func_eval reads I_new after the call) - observation only, enabled '
-         'by VERIF_C06_STRICT_FORMS=1; exact rescalings are kept within 2^+-500 (objective; down to 2^-1000) and 2^+-150 per '
-         'core (Y0): beyond that teneva.accuracy / core_stab overflow (root cause of the C04 / C16 known findings) and cross '
+         'by VERIF_C06_STRICT_FORMS=1; exact rescalings are kept within 2^+-500 (objective; down to 2^-1000) and 2^-150..2^100 per '
+         'core (Y0; 2^150 per core already overflows for d = 4): beyond that teneva.accuracy / core_stab overflow (root cause of the C04 / C16 known findings) and cross '
          'raises OverflowError, which is outside the clauses of C06.',
     technique='Coq proof (inductive invariant over a small-step machine, schedule of the program counter, progress '
               'measure m + m_cache) + exact replay correspondence + fault enumeration (every budget / every None '
@@ -450,7 +450,7 @@ def gen_edges(tn, rng):
     # reported to the lead, kept out of the families
     for k in rng.sample([-1000, -500, -100, -30, 30, 100, 500], 3):
         out.append(dict(base, sc2=k))
-    out.append(dict(base, sc2Y=rng.choice([-150, -100, 100, 150])))
+    out.append(dict(base, sc2Y=rng.choice([-150, -100, 100])))     # +150 per core already overflows accuracy for d = 4
     return out
 
 
